@@ -88,3 +88,62 @@ Theorem C14_record_only_opens_under_its_credential_identifier :
     BadS CS \/ BadOprfDerive CS.
 Proof. exact @other_credential_identifier_never_accepted. Qed.
 Print Assumptions C14_record_only_opens_under_its_credential_identifier.
+
+
+(* ---------------------------------------------------------------- at the 20 concrete suites
+   The theorems above that assume GroupLaws, restated for each of the 20 suites with CurveLaws as the only hypothesis
+   (HashLaws, CodecLaws, SizeLaws and the encoding half of GroupLaws are proved for them: Theory/GroupSplit.v). *)
+From OKE Require Import CodecsConcrete GroupSplit Concrete20.
+
+Definition C14_blind_independent_statement {E Sc Pk Sk} (CS : Suite E Sc Pk Sk) : Prop :=
+  forall pw r k ksf rp,
+    ve CS (o_h2g (oprf CS) pw (dst_hash_to_group (oprf CS))) -> vs CS r -> vs CS k ->
+    get_password_derived_key CS pw r
+      (o_mul (oprf CS) (o_mul (oprf CS) (o_h2g (oprf CS) pw (dst_hash_to_group (oprf CS))) r) k) ksf = Ok rp ->
+    forall r', vs CS r' ->
+      get_password_derived_key CS pw r'
+        (o_mul (oprf CS) (o_mul (oprf CS) (o_h2g (oprf CS) pw (dst_hash_to_group (oprf CS))) r') k) ksf = Ok rp.
+Theorem C14_blind_independent_at_each_of_the_20_suites : all_suites (fun _ _ _ _ CS => CurveLaws CS -> C14_blind_independent_statement CS).
+Proof. apply at_the_20_suites_g. exact C14_blind_independent. Qed.
+Print Assumptions C14_blind_independent_at_each_of_the_20_suites.
+
+Definition C14_reregistration_same_masking_key_statement {E Sc Pk Sk} (CS : Suite E Sc Pk Sk) : Prop :=
+  forall (setup : ServerSetup Pk Sk Sk) pw cred ids ksf ta ta' tb tb' creg rq r1 rr up ek spk r2 creg' rq' r1' rr' up' ek' spk' r2',
+    ve CS (o_h2g (oprf CS) pw (dst_hash_to_group (oprf CS))) ->
+    client_registration_start CS ta pw = Ok (creg, rq, r1) ->
+    server_registration_start CS setup rq cred = Ok rr ->
+    client_registration_finish CS creg tb pw rr ids ksf = Ok (up, ek, spk, r2) ->
+    client_registration_start CS ta' pw = Ok (creg', rq', r1') ->
+    server_registration_start CS setup rq' cred = Ok rr' ->
+    client_registration_finish CS creg' tb' pw rr' ids ksf = Ok (up', ek', spk', r2') ->
+    ru_masking_key up = ru_masking_key up'.
+Theorem C14_reregistration_same_masking_key_at_each_of_the_20_suites : all_suites (fun _ _ _ _ CS => CurveLaws CS -> C14_reregistration_same_masking_key_statement CS).
+Proof. apply at_the_20_suites_g. exact C14_reregistration_same_masking_key. Qed.
+Print Assumptions C14_reregistration_same_masking_key_at_each_of_the_20_suites.
+
+Definition C14_credential_identifiers_separate_keys_statement {E Sc Pk Sk} (CS : Suite E Sc Pk Sk) : Prop :=
+  forall seed cred cred' k,
+    oprf_key CS seed cred = Ok k -> oprf_key CS seed cred' = Ok k -> cred <> cred' ->
+    BadS CS \/ BadOprfDerive CS.
+Theorem C14_credential_identifiers_separate_keys_at_each_of_the_20_suites : all_suites (fun _ _ _ _ CS => CurveLaws CS -> C14_credential_identifiers_separate_keys_statement CS).
+Proof. apply at_the_20_suites_g. exact C14_credential_identifiers_separate_keys. Qed.
+Print Assumptions C14_credential_identifiers_separate_keys_at_each_of_the_20_suites.
+
+Definition C14_record_only_opens_under_its_credential_identifier_statement {E Sc Pk Sk} (CS : Suite E Sc Pk Sk) : Prop :=
+  (forall a b : Sk, {a = b} + {a <> b}) ->
+  (forall P a b, ve CS P -> vs CS a -> vs CS b -> o_mul (oprf CS) P a = o_mul (oprf CS) P b -> a = b) ->
+  forall tape setup t1 pw creg rq t2 cred rr ids ksf upload ek spk t3 cred' clog ke1 t4 ctx slog ke2 t5 dbg out,
+    ve CS (o_h2g (oprf CS) pw (dst_hash_to_group (oprf CS))) ->
+    server_setup_new CS tape = Ok (setup, t1) ->
+    client_registration_start CS t1 pw = Ok (creg, rq, t2) ->
+    server_registration_start CS setup rq cred = Ok rr ->
+    client_registration_finish CS creg t2 pw rr ids ksf = Ok (upload, ek, spk, t3) ->
+    cred' <> cred ->
+    client_login_start CS t3 pw = Ok (clog, ke1, t4) ->
+    server_login_start CS (private_key_ops (ke CS)) t4 setup (Some (server_registration_finish upload)) ke1 cred' ctx ids
+      = Ok (slog, ke2, t5, dbg) ->
+    client_login_finish CS clog pw ke2 ctx ids ksf = Ok out ->
+    BadS CS \/ BadOprfDerive CS.
+Theorem C14_record_only_opens_under_its_credential_identifier_at_each_of_the_20_suites : all_suites (fun _ _ _ _ CS => CurveLaws CS -> C14_record_only_opens_under_its_credential_identifier_statement CS).
+Proof. apply at_the_20_suites. exact C14_record_only_opens_under_its_credential_identifier. Qed.
+Print Assumptions C14_record_only_opens_under_its_credential_identifier_at_each_of_the_20_suites.
